@@ -69,6 +69,18 @@ impl Engine {
         }
     }
 
+    /// valid checksum, right prefix, but 1 / 33 / 31-with-padding-bits / 0 data symbols
+    pub fn odd_addr(&self, k: u8) -> String {
+        let hrp = if k % 2 == 0 { self.m.cfg.nprefix.clone() } else { self.m.cfg.pprefix.clone() };
+        let data: Vec<u8> = match (k / 2) % 4 {
+            0 => vec![7],
+            1 => (0..33).map(|i| (i * 7 + 3) as u8 % 32).collect(),
+            2 => (0..32).map(|i| if i == 31 { 1 } else { (i * 5 + 1) as u8 % 32 }).collect(),
+            _ => vec![],
+        };
+        crate::crypto::bech32_encode_data5(&hrp, &data)
+    }
+
     fn bad_addr(&self, k: u8) -> String {
         let good = &self.a.users[0];
         match k % 6 {
@@ -171,6 +183,11 @@ impl Engine {
             }
             Recip::Native(i) => {
                 let r = self.a.natives[*i as usize % self.a.natives.len()].clone();
+                (Some(r.clone()), r)
+            }
+            Recip::Staker => (Some(self.m.cfg.staker.clone()), self.m.cfg.staker.clone()),
+            Recip::OddData(k) => {
+                let r = self.odd_addr(*k);
                 (Some(r.clone()), r)
             }
             Recip::Contract32 => (Some(self.a.contract32.clone()), self.a.contract32.clone()),
@@ -997,6 +1014,13 @@ impl Engine {
                 let refundable: Vec<&MPacket> = all.iter().filter(|p| p.status != PStatus::Sent).collect();
                 let inflight: Vec<&MPacket> = all.iter().filter(|p| p.status == PStatus::Sent).collect();
                 let mut ids = vec![];
+                // candidates that can legitimately be merged with the first pick (same receiver and denom);
+                // one selector value in eight keeps the unrestricted (usually rejected) choice
+                let first = refundable.get((sels[0] as usize / 2) % refundable.len().max(1)).cloned();
+                let refundable: Vec<&MPacket> = match (&first, sels[0] % 8 == 7) {
+                    (Some(f), false) => refundable.iter().copied().filter(|p| p.receiver == f.receiver && (p.denom == f.denom || sels[0] % 8 == 5)).collect(),
+                    _ => refundable,
+                };
                 for s in sels {
                     let id = if s % 2 == 0 && !refundable.is_empty() {
                         refundable[(*s as usize / 2) % refundable.len()].seq
@@ -1304,7 +1328,7 @@ impl Engine {
         }
         let n_other = out.effects.iter().filter(|e| !matches!(e, Effect::OraclePost { .. })).count();
         self.chk(&["C10"], n_other == 0, || format!("{what}: effects {:?}", out.effects));
-        self.check_oracle(&what, &out, true);
+        self.check_oracle(&what, &out, (n, l) != (n0, l0));
         if was_halted {
             self.stats.flags.insert("resumed_after_halt");
         }
